@@ -642,6 +642,7 @@ func c14Extras(c *Ctx) {
 }
 
 func c15Extras(c *Ctx) {
+	c15Extras4(c)
 	w := c.W
 	// OneCRL.Check reports "not listed" only after the blocked subject/key list was scanned to its end
 	if fn := w.Fn("(*z/x509/revocation/mozilla.OneCRL).Check"); fn != nil {
@@ -1412,6 +1413,7 @@ func accumulatesInto(fn *ssa.Function, p *ssa.Parameter) bool {
 
 func c21Extras(c *Ctx) {
 	w := c.W
+	c21Extras4(c)
 	found := map[string]bool{}
 	type site struct {
 		fn  *ssa.Function
